@@ -2,7 +2,7 @@
 # model/implementation correspondence it depends on.
 PROPS = {
     "C01": dict(
-        suites=["seq"], tags={"returns", "reads", "order", "sizes"}, corr={"ret"},
+        suites=["seq"], tags={"returns", "reads", "order", "sizes", "reader_stable"}, corr={"ret"},
         rule="random sequential histories (3-4 keys incl. empty key, shared/empty/large contents, all chunkings, "
              "6 key types, N in {1,2,3,4,7,100}, both sync modes); distinct = distinct case bodies with >= 2 mutating ops",
         assumptions=["K: Ord agrees with key_cmp (checked by the iteration-order correspondence)"]),
@@ -16,7 +16,7 @@ PROPS = {
              "crash during recovery via close/open in the history); distinct = distinct crash images",
         assumptions=["process-kill model: completed calls persist, a call is atomic"]),
     "C06": dict(
-        suites=["seq", "crash"], tags={"cas_content", "cas_immutable"}, corr={"trace", "dir"}, crash_corr={"image"},
+        suites=["seq", "crash"], tags={"cas_content", "cas_immutable", "reader_stable"}, corr={"trace", "dir"}, crash_corr={"image"},
         rule="every CAS file re-hashed by the harness at every kill point and after every op; call traces never write under cas/"),
     "C07": dict(
         suites=["seq"], tags={"cas_exact", "staging_empty"}, corr={"dir"},
@@ -34,9 +34,10 @@ PROPS = {
         suites=["seq", "codec", "sizes"], tags={"hash_identity", "roundtrip", "decoder_total", "cas_exact", "reads", "sizes", "counts"}, corr={"state", "dir"}, codec_kinds={"path", "unpath"},
         rule="entry hash == blake3(concat chunks) (blake3 crate oracle), file at hexpath(hash), for all chunkings"),
     "C20": dict(
-        suites=["crash", "seq"], tags={"disk_wellformed", "disk_history"}, corr={"dir"}, crash_corr={"image"},
+        suites=["crash", "seq", "fault"], tags={"disk_wellformed", "disk_history"}, corr={"dir"}, crash_corr={"image"},
         rule="independent decoder of index and *.wal at every kill point: complete records, valid checksums, versions "
-             "increasing and in their segment's range, snapshot+log == acknowledged history (or + in-flight op)"),
+             "increasing and in their segment's range, snapshot+log == acknowledged history (or + in-flight op); the "
+             "format clauses also on every directory listing of every history with one injected I/O error"),
     "C16": dict(
         suites=["codec"], tags={"decoder_total", "roundtrip", "alloc_bound"},
         rule="K1: random values of every encodable type through the real encoders, byte strings (valid, mutated, truncated, "
